@@ -66,6 +66,7 @@ ada_really_inline bool has_tabs_or_newline(
     std::string_view user_input) noexcept {
   // first check for short strings in which case we do it naively.
   if (user_input.size() < 16) {  // slow path
+    ADA_VERIF_COUNT(C_TABS_SHORT);
     return std::ranges::any_of(user_input, is_tabs_or_newline);
   }
   // fast path for long strings (expected to be common)
@@ -98,10 +99,12 @@ ada_really_inline bool has_tabs_or_newline(
     std::string_view user_input) noexcept {
   // first check for short strings in which case we do it naively.
   if (user_input.size() < 16) {  // slow path
+    ADA_VERIF_COUNT(C_TABS_SHORT);
     return std::ranges::any_of(user_input, is_tabs_or_newline);
   }
   // fast path for long strings (expected to be common)
   size_t i = 0;
+  ADA_VERIF_COUNT(C_TABS_SIMD);
   /**
    * The fastest way to check for `\t` (==9), '\n'(== 10) and `\r` (==13) relies
    * on table lookup instruction. We notice that these are all unique numbers
@@ -136,10 +139,12 @@ ada_really_inline bool has_tabs_or_newline(
     std::string_view user_input) noexcept {
   // first check for short strings in which case we do it naively.
   if (user_input.size() < 16) {  // slow path
+    ADA_VERIF_COUNT(C_TABS_SHORT);
     return std::ranges::any_of(user_input, is_tabs_or_newline);
   }
   // fast path for long strings (expected to be common)
   size_t i = 0;
+  ADA_VERIF_COUNT(C_TABS_SIMD);
   const __m128i mask1 = _mm_set1_epi8('\r');
   const __m128i mask2 = _mm_set1_epi8('\n');
   const __m128i mask3 = _mm_set1_epi8('\t');
@@ -167,10 +172,12 @@ ada_really_inline bool has_tabs_or_newline(
     std::string_view user_input) noexcept {
   // first check for short strings in which case we do it naively.
   if (user_input.size() < 16) {  // slow path
+    ADA_VERIF_COUNT(C_TABS_SHORT);
     return std::ranges::any_of(user_input, is_tabs_or_newline);
   }
   // fast path for long strings (expected to be common)
   size_t i = 0;
+  ADA_VERIF_COUNT(C_TABS_SIMD);
   const __m128i mask1 = __lsx_vrepli_b('\r');
   const __m128i mask2 = __lsx_vrepli_b('\n');
   const __m128i mask3 = __lsx_vrepli_b('\t');
